@@ -176,21 +176,34 @@ def run(ctx):
             tail = tail[:-1]
         scen.append(('random rule list', b, rules, checks, ops + tail, None))
     exe = build_driver(ctx)
-    text = []
-    for si, (lab, b, rules, checks, ops, _) in enumerate(scen):
-        text += scenario_lines('s%d' % si, b, checks, ops)
-    r = vlib.run_driver(exe, '\n'.join(text) + '\n', timeout=1800)
-    outs = [json.loads(l) for l in r.stdout.splitlines() if l.startswith('{')]
-    if len(outs) != len(scen):
-        died = scen[len(outs)] if len(outs) < len(scen) else None
-        if died is not None and r.returncode != 0:
-            # an assertion / sanitizer abort inside the checklist code: that execution has no answer at all
-            case = {'rules': died[2], 'checks': died[3], 'ops': died[4], 'ub': True}
-            ctx.violation('the process died (rc=%s) while executing scenario %d: %s' % (r.returncode, len(outs), r.stderr[-600:]),
-                          {'class': dict(classify(case), kind='abort'), 'scenario': scenario_lines('x', died[1], died[3], died[4])})
-            scen = scen[:len(outs)]
-        else:
-            raise vlib.MachineryError('driver answered %d of %d scenarios (rc=%s): %s' % (len(outs), len(scen), r.returncode, r.stderr[-800:]))
+    # run; if the process dies inside a scenario (assertion / sanitizer abort in the checklist code) that execution has no
+    # answer at all: record it, drop it and go on with the remaining scenarios in a fresh process (a few times)
+    outs, todo, aborted = [], list(range(len(scen))), []
+    for attempt in range(6):
+        chunk_text = []
+        for si in todo:
+            chunk_text += scenario_lines('s%d' % si, scen[si][1], scen[si][3], scen[si][4])
+        r = vlib.run_driver(exe, '\n'.join(chunk_text) + '\n', timeout=1800)
+        got = [json.loads(l) for l in r.stdout.splitlines() if l.startswith('{')]
+        outs += list(zip(todo[:len(got)], got))
+        if len(got) == len(todo):
+            todo = []
+            break
+        if r.returncode == 0:
+            raise vlib.MachineryError('driver answered %d of %d scenarios (rc=0): %s' % (len(got), len(todo), r.stderr[-800:]))
+        aborted.append((todo[len(got)], r.returncode, r.stderr[-600:]))
+        todo = todo[len(got) + 1:]
+    for si, rc, err in aborted[:3]:
+        died = scen[si]
+        case = {'rules': died[2], 'checks': died[3], 'ops': died[4], 'ub': True}
+        ctx.violation('the process died (rc=%s) while executing a scenario over [%s]: %s' % (rc, '; '.join(l for l in died[1].lines if l.startswith('rule'))[:200], err),
+                      {'class': dict(classify(case), kind='abort'), 'scenario': scenario_lines('x', died[1], died[3], died[4])})
+    ctx.cov['executions_aborted'] = len(aborted)
+    ctx.cov['scenarios_not_executed'] = len(todo)
+    done = [si for si, _ in outs]
+    scen = [scen[si] for si in done]
+    ntlc = sum(1 for si in done if si < ntlc)
+    outs = [o for _, o in outs]
     cases = []
     for (lab, b, rules, checks, ops, s), o in zip(scen, outs):
         obs = [{'answers': c['answers'], 'log': c['log'], 'paused': c['paused']} for c in sorted(o['checks'], key=lambda c: c['c'])]
@@ -223,7 +236,7 @@ def run(ctx):
     ctx.cov['executions_with_concurrent_checks'] = sum(1 for c in cases if len(c['checks']) > 1)
     ctx.cov['answers'] = {a: sum(1 for c in cases for o in c['obs'] if o['answers'] == [a]) for a in ('allow', 'deny', 'dunno')}
     ctx.cov['implicit_answers'] = sum(1 for c in cases for ck in c['checks'] if c['rules'] and not any(rule_true(r, ck['truth']) for r in c['rules']))
-    for idx in (0, ntlc - 1, len(cases) - 1):
+    for idx in sorted(set(max(0, min(len(cases) - 1, x)) for x in (0, ntlc - 1, len(cases) - 1))) if cases else []:
         ctx.sample({'config': [l for l in scen[idx][1].lines if not l.endswith('vleaf')][:8], 'checks': cases[idx]['checks'],
                     'ops': ' '.join('%s%d' % (o['op'], o['c']) for o in cases[idx]['ops']), 'observed': cases[idx]['obs']})
     ctx.cov['rule'] = ('per configuration (6 fixed rule lists covering every node kind + seeded random ones) TLC enumerates every valuation x every lookup behaviour '
